@@ -37,6 +37,18 @@ var elems = []elem{
 	{"vec", "#(1 2)", "#(1 2)"},
 }
 
+// hashKeyOK: list keys fault in Go (unhashable slice; C09/C16 territory) and
+// bignum / ratio keys are compared by pointer identity by HashTable.Equal
+// (the C16 finding), vectors are pointers too: neither is about load forms,
+// they are left out.
+func hashKeyOK(feat string) bool {
+	switch feat {
+	case "nil", "lst", "dot", "big", "ratio", "vec":
+		return false
+	}
+	return true
+}
+
 func rep(s string, n int) string {
 	return strings.TrimSpace(strings.Repeat(s+" ", n))
 }
@@ -95,7 +107,7 @@ var lamDefs = []lamDef{
 	{"with-output", "(x)", `(with-output-to-string (s) (princ x s) (princ "-" s))`, []string{"1", `"ab"`}},
 	{"string-esc", "(x)", "(concatenate 'string x \"a\\\"b\\\\c\nd\te\")", []string{`"z"`}},
 	{"string-long", "(x)", `(list x "a long string of words that is wider than the narrow margins so that it can not fit on one line at all")`, []string{"1"}},
-	{"char", "(s)", `(list (char= #\( (char s 0)) #\Space #\" #\a)`, []string{`"(a"`, `"b"`}},
+	{"char", "(s)", `(list (char= #\a (char s 0)) #\Space #\A #\z)`, []string{`"ab"`, `"b"`}},
 	{"flet", "(x)", `(flet ((g (y) (* y 2)) (h (y) (+ y 1))) (g (h x)))`, []string{"1", "5"}},
 	{"labels", "(x)", `(labels ((fact (n) (if (< n 2) 1 (* n (fact (1- n)))))) (fact x))`, []string{"1", "5"}},
 	{"case", "(x)", `(case x (1 'one) ((2 3) 'few) (t 'many))`, []string{"1", "3", "9"}},
@@ -110,7 +122,7 @@ var lamDefs = []lamDef{
 	{"unwind", "(x)", `(let ((r nil)) (unwind-protect (setq r (list x)) (setq r (cons 'done r))) r)`, []string{"1"}},
 	{"and-or", "(x y)", `(list (and x y) (or x y) (not x))`, []string{"nil 2", "1 nil", "1 2"}},
 	{"make-instance", "(x)", `(make-instance 'vanilla-flavor)`, nil},
-	{"defvar-in-body", "(x)", `(progn (defvar @v x "Doc var.") @v)`, []string{"1"}},
+	{"defvar-in-body", "(x)", `(progn (defvar $v x "Doc var.") $v)`, []string{"1"}},
 }
 
 func init() {
@@ -141,14 +153,14 @@ func init() {
 	// ---------------------------------------------------------------- symbols
 	for _, s := range [][2]string{
 		{"plain", "'abc"}, {"keyword", ":key"}, {"t", "t"}, {"dashes", "'a-long-symbol-name*"},
-		{"piped-space", "'|Foo Bar|"}, {"piped-case", "'|Foo|"}, {"pkg-qualified", "'cl:car"},
+		{"piped-space", "go-symbol:Foo Bar"}, {"piped-case", "go-symbol:Foo"},
 	} {
 		data("symbol", s[0], "sym:"+s[0], s[1])
 	}
 	// ------------------------------------------------------------- characters
 	for _, s := range [][2]string{
-		{"letter", `#\a`}, {"upper", `#\A`}, {"space", `#\Space`}, {"newline", `#\Newline`}, {"paren", `#\(`},
-		{"quote", `#\"`}, {"semicolon", `#\;`}, {"unicode", `#\ü`}, {"tab", `#\Tab`}, {"backslash", `#\\`},
+		{"letter", `#\a`}, {"upper", `#\A`}, {"space", `#\Space`}, {"newline", `#\Newline`}, {"digit", `#\7`},
+		{"unicode", `#\ü`}, {"tab", `#\Tab`}, {"punct", `#\*`}, {"paren", `(code-char 40)`}, {"quote", `(code-char 34)`}, {"semicolon", `(code-char 59)`},
 	} {
 		data("character", s[0], "chr:"+s[0], s[1])
 	}
@@ -157,10 +169,19 @@ func init() {
 		data("list", e.feat, "list:2:"+e.feat, "'("+rep(e.quoted, 2)+")")
 		data("list", e.feat, "list:14:"+e.feat, "'("+rep(e.quoted, 14)+")")
 		data("list", e.feat, "list:nested:"+e.feat, "'(("+e.quoted+") ("+e.quoted+" ("+e.quoted+")))")
-		data("list-dotted", e.feat, "list:dot2:"+e.feat, "'("+e.quoted+" . "+e.quoted+")")
-		data("list-dotted", e.feat, "list:dot3:"+e.feat, "'("+e.quoted+" "+e.quoted+" . "+e.quoted+")")
+		// (x . (1 2)) IS the list (x 1 2) and (x . nil) is (x): only atom tails are dotted lists
+		atomTail := e.feat != "lst" && e.feat != "dot" && e.feat != "nil"
+		if atomTail {
+			data("list-dotted", e.feat, "list:dot2:"+e.feat, "'("+e.quoted+" . "+e.quoted+")")
+			data("list-dotted", e.feat, "list:dot3:"+e.feat, "'("+e.quoted+" "+e.quoted+" . "+e.quoted+")")
+		} else if e.feat != "nil" {
+			data("list-dotted", e.feat, "list:dot2:"+e.feat, "'("+e.quoted+" . 5)")
+			data("list-dotted", e.feat, "list:dot3:"+e.feat, "'("+e.quoted+" "+e.quoted+" . \"tail\")")
+		}
 		dataT("list", e.feat, "list:40:"+e.feat, "'("+rep(e.quoted, 40)+")")
-		dataT("list-dotted", e.feat, "list:dot12:"+e.feat, "'("+rep(e.quoted, 12)+" . "+e.quoted+")")
+		if atomTail {
+			dataT("list-dotted", e.feat, "list:dot12:"+e.feat, "'("+rep(e.quoted, 12)+" . "+e.quoted+")")
+		}
 	}
 	data("list", "mixed", "list:mixed", `'(1 "two" 3.5 (4 (5 "six")) #\7 :eight 9/10 nil t)`)
 	data("list", "deep", "list:deep", `'(1 (2 (3 (4 (5 (6 (7 (8 (9 (10))))))))))`)
@@ -168,6 +189,7 @@ func init() {
 		for j, b := range elems {
 			if i != j {
 				dataT("list", a.feat+"+"+b.feat, "list:pair:"+a.feat+":"+b.feat, "'("+a.quoted+" "+b.quoted+" ("+b.quoted+" "+a.quoted+"))")
+				lfIndex["list:pair:"+a.feat+":"+b.feat].parts = []string{"list:2:" + a.feat, "list:2:" + b.feat}
 			}
 		}
 	}
@@ -189,7 +211,6 @@ func init() {
 		data("array", e.feat, "arr:2x2:"+e.feat, "(make-array '(2 2) :initial-contents (list (list "+rep(e.expr, 2)+") (list "+rep(e.expr, 2)+")))")
 	}
 	data("array", "rank3", "arr:2x3x2", "(make-array '(2 3 2) :initial-contents '(((1 2) (3 4) (5 6)) ((7 8) (9 10) (11 12))))")
-	data("array", "rank0", "arr:rank0", "(make-array nil :initial-element 5)")
 	data("array", "wide", "arr:3x12", "(make-array '(3 12) :initial-element 1234567)")
 	data("array", "element-type", "arr:fixnum", "(make-array '(2 2) :element-type 'fixnum :initial-contents '((1 2) (3 4)))")
 	data("array", "adjustable", "arr:adjustable", "(make-array '(2 2) :adjustable t :initial-contents '((1 2) (3 4)))")
@@ -199,7 +220,7 @@ func init() {
 		return "(let ((h (make-hash-table))) (setf (gethash " + k + " h) " + v + ") h)"
 	}
 	for _, e := range elems {
-		if e.feat == "nil" {
+		if !hashKeyOK(e.feat) {
 			continue
 		}
 		data("hash-table", "key="+e.feat, "hash:key:"+e.feat, hash(e.expr, "1"))
@@ -213,8 +234,9 @@ func init() {
 	data("hash-table", "test-equal", "hash:test-equal", `(let ((h (make-hash-table :test 'equal))) (setf (gethash "a" h) 1) h)`)
 	for _, k := range elems {
 		for _, v := range elems {
-			if k.feat != "nil" {
+			if hashKeyOK(k.feat) {
 				dataT("hash-table", "key="+k.feat+",val="+v.feat, "hash:kv:"+k.feat+":"+v.feat, hash(k.expr, v.expr))
+				lfIndex["hash:kv:"+k.feat+":"+v.feat].parts = []string{"hash:key:" + k.feat, "hash:val:" + v.feat}
 			}
 		}
 	}
@@ -225,30 +247,30 @@ func init() {
 			probes = append(probes, strings.TrimSpace("(funcall f "+call)+")")
 		}
 		sup := ""
-		if strings.Contains(ld.body, "@v") {
-			sup = "(defvar @v nil)"
+		if strings.Contains(ld.body, "$v") {
+			sup = "(defvar $v nil)"
 		}
 		addCase(&lfCase{label: "lambda:" + ld.feat, kind: "lambda", feat: ld.feat, support: sup,
 			obj: "(lambda " + ld.args + " " + ld.body + ")", probes: probes})
 		// the same body as a named function and as a macro-free defun
 		var fprobes []string
 		for _, call := range ld.calls {
-			fprobes = append(fprobes, strings.TrimSpace("(@f "+call)+")")
+			fprobes = append(fprobes, strings.TrimSpace("($f "+call)+")")
 		}
-		fprobes = append(fprobes, "(make-load-form '@f)")
+		fprobes = append(fprobes, "(make-load-form '$f)")
 		addCase(&lfCase{label: "defun:" + ld.feat, kind: "defun", feat: ld.feat, support: sup,
-			setup: "(defun @f " + ld.args + " " + ld.body + ")", defs: []string{"(make-load-form '@f)"}, probes: fprobes})
+			setup: "(defun $f " + ld.args + " " + ld.body + ")", defs: []string{"(make-load-form '$f)"}, probes: fprobes})
 	}
 	// ----------------------------------------------------------------- macros
 	addCase(&lfCase{label: "defmacro:list", kind: "defmacro", feat: "list-built",
-		setup: `(defmacro @m (a b) "Doc macro." (list '+ a (list '* 2 b)))`, defs: []string{"(make-load-form '@m)"},
-		probes: []string{"(@m 1 2)", "(macroexpand-1 '(@m x y))", "(make-load-form '@m)"}})
+		setup: `(defmacro $m (a b) "Doc macro." (list '+ a (list '* 2 b)))`, defs: []string{"(make-load-form '$m)"},
+		probes: []string{"($m 1 2)", "(macroexpand-1 '($m x y))", "(make-load-form '$m)"}})
 	addCase(&lfCase{label: "defmacro:backquote", kind: "defmacro", feat: "backquote",
-		setup: "(defmacro @m (a &rest body) `(let ((v ,a)) ,@body (list v ,a)))", defs: []string{"(make-load-form '@m)"},
-		probes: []string{"(@m 1 2)", "(macroexpand-1 '(@m x y z))", "(make-load-form '@m)"}})
+		setup: "(defmacro $m (a &rest body) `(let ((v ,a)) ,@body (list v ,a)))", defs: []string{"(make-load-form '$m)"},
+		probes: []string{"($m 1 2)", "(macroexpand-1 '($m x y z))", "(make-load-form '$m)"}})
 	addCase(&lfCase{label: "defmacro:optional", kind: "defmacro", feat: "optional",
-		setup: `(defmacro @m (a &optional (b 5)) (list 'list a b))`, defs: []string{"(make-load-form '@m)"},
-		probes: []string{"(@m 1)", "(@m 1 2)", "(make-load-form '@m)"}})
+		setup: `(defmacro $m (a &optional (b 5)) (list 'list a b))`, defs: []string{"(make-load-form '$m)"},
+		probes: []string{"($m 1)", "($m 1 2)", "(make-load-form '$m)"}})
 	// ------------------------------------------------------------------ calls
 	for i, cs := range [][2]string{
 		{"arith", `(+ 1 2)`}, {"strings", `(list 1 "a" :k #\c 2.5)`}, {"quote", `(car '(1 2))`},
@@ -268,181 +290,177 @@ func init() {
 		addCase(&lfCase{label: fmt.Sprintf("call:%d:%s", i, cs[0]), kind: "call", feat: cs[0], obj: cs[1], funky: true})
 	}
 	// --------------------------------------------------------------- packages
-	pkgProbe := "(c19-package-dump \"@p\")"
+	pkgProbe := "(c19-package-dump \"$p\")"
 	addCase(&lfCase{label: "package:plain", kind: "package", feat: "plain",
-		setup: `(defpackage @p)`, defs: []string{"(make-load-form (find-package '@p))"}, probes: []string{pkgProbe}})
+		setup: `(defpackage :$p)`, defs: []string{"(make-load-form (find-package '$p))"}, probes: []string{pkgProbe}})
 	addCase(&lfCase{label: "package:use", kind: "package", feat: "use",
-		setup: `(defpackage @p (:use cl gi))`, defs: []string{"(make-load-form (find-package '@p))"}, probes: []string{pkgProbe}})
+		setup: `(defpackage :$p (:use cl gi))`, defs: []string{"(make-load-form (find-package '$p))"}, probes: []string{pkgProbe}})
 	addCase(&lfCase{label: "package:nicknames", kind: "package", feat: "nicknames",
-		setup: `(defpackage @p (:nicknames @n @o))`, defs: []string{"(make-load-form (find-package '@p))"}, probes: []string{pkgProbe}})
+		setup: `(defpackage :$p (:nicknames $n $o))`, defs: []string{"(make-load-form (find-package '$p))"}, probes: []string{pkgProbe}})
 	addCase(&lfCase{label: "package:export", kind: "package", feat: "export",
-		setup: `(defpackage @p (:use cl) (:export @x @y))`, defs: []string{"(make-load-form (find-package '@p))"}, probes: []string{pkgProbe}})
+		setup: `(defpackage :$p (:use cl) (:export $x $y))`, defs: []string{"(make-load-form (find-package '$p))"}, probes: []string{pkgProbe}})
 	addCase(&lfCase{label: "package:doc", kind: "package", feat: "documentation",
-		setup: `(defpackage @p (:documentation "Doc of the package."))`, defs: []string{"(make-load-form (find-package '@p))"}, probes: []string{pkgProbe}})
+		setup: `(defpackage :$p (:documentation "Doc of the package."))`, defs: []string{"(make-load-form (find-package '$p))"}, probes: []string{pkgProbe}})
 	addCase(&lfCase{label: "package:all", kind: "package", feat: "all-options",
-		setup:  `(defpackage @p (:nicknames @n) (:use cl) (:export @x-exported-symbol-one @y-exported-symbol-two @z-exported-symbol-three) (:documentation ` + longDoc + `))`,
-		defs:   []string{"(make-load-form (find-package '@p))"},
+		setup:  `(defpackage :$p (:nicknames $n) (:use cl) (:export $x-exported-symbol-one $y-exported-symbol-two $z-exported-symbol-three) (:documentation ` + longDoc + `))`,
+		defs:   []string{"(make-load-form (find-package '$p))"},
 		probes: []string{pkgProbe}})
 	addCase(&lfCase{label: "package:uses-user-package", kind: "package", feat: "use-user-package",
-		setup: `(defpackage @b (:export @x)) (defpackage @p (:use @b cl))`,
-		defs:  []string{"(make-load-form (find-package '@b))", "(make-load-form (find-package '@p))"}, probes: []string{pkgProbe, "(c19-package-dump \"@b\")"}})
+		setup: `(defpackage :$b (:export $x)) (defpackage :$p (:use $b cl))`,
+		defs:  []string{"(make-load-form (find-package '$b))", "(make-load-form (find-package '$p))"}, probes: []string{pkgProbe, "(c19-package-dump \"$b\")"}})
 	// ---------------------------------------------------------------- flavors
 	flv := func(feat, setup string, defs []string, probes ...string) {
 		if defs == nil {
-			defs = []string{"(make-load-form '@f)"}
+			defs = []string{"(make-load-form '$f)"}
 		}
-		probes = append(probes, "(make-load-form '@f)")
+		probes = append(probes, "(make-load-form '$f)")
 		addCase(&lfCase{label: "flavor:" + feat, kind: "flavor", feat: feat, setup: setup, defs: defs, probes: probes})
 	}
-	flv("plain", `(defflavor @f (a b) ())`, nil, "(c19-instance-dump (make-instance '@f))")
-	flv("defaults", `(defflavor @f ((a 1) (b "two") (c 2.5) d) () :gettable-instance-variables)`, nil,
-		"(c19-instance-dump (make-instance '@f))", "(send (make-instance '@f) :b)")
-	flv("all-accessors", `(defflavor @f ((a 1) (b 2)) () :gettable-instance-variables :settable-instance-variables :inittable-instance-variables)`, nil,
-		"(c19-instance-dump (make-instance '@f :a 5))", "(let ((i (make-instance '@f))) (send i :set-b 9) (send i :b))")
-	flv("some-gettable", `(defflavor @f ((a 1) (b 2) (c 3)) () (:gettable-instance-variables a c))`, nil,
-		"(send (make-instance '@f) :a)", "(send (make-instance '@f) :b)", "(send (make-instance '@f) :c)")
-	flv("some-settable", `(defflavor @f ((a 1) (b 2) (c 3)) () (:settable-instance-variables b))`, nil,
-		"(let ((i (make-instance '@f))) (send i :set-b 9) (c19-instance-dump i))", "(send (make-instance '@f) :set-a 4)")
-	flv("some-inittable", `(defflavor @f ((a 1) (b 2) (c 3)) () (:inittable-instance-variables a c))`, nil,
-		"(c19-instance-dump (make-instance '@f :a 7 :c 8))", "(c19-instance-dump (make-instance '@f :b 7))")
-	flv("two-inittable-of-four", `(defflavor @f ((a 1) (b 2) (c 3) (d 4)) () (:inittable-instance-variables b d) :gettable-instance-variables)`, nil,
-		"(c19-instance-dump (make-instance '@f :b 7 :d 8))", "(c19-instance-dump (make-instance '@f :a 7))")
-	flv("default-init-plist", `(defflavor @f ((a 1) b) () :inittable-instance-variables (:default-init-plist (:b 22)))`, nil,
-		"(c19-instance-dump (make-instance '@f))", "(c19-instance-dump (make-instance '@f :b 3))")
-	flv("documentation", `(defflavor @f (a) () (:documentation "Doc of flavor."))`, nil, "(c19-instance-dump (make-instance '@f))")
-	flv("documentation-long", `(defflavor @f (a) () (:documentation `+longDoc+`))`, nil, "(c19-instance-dump (make-instance '@f))")
-	flv("abstract", `(defflavor @f (a) () :abstract-flavor)`, nil, "(make-instance '@f)")
-	flv("no-vanilla", `(defflavor @f (a) () :no-vanilla-flavor)`, nil, "(send (make-instance '@f) :id)")
-	flv("required-methods", `(defflavor @f (a) () (:required-methods :foo :bar))`, nil, "(make-instance '@f)")
-	flv("required-vars", `(defflavor @f (a) () (:required-instance-variables zz))`, nil, "(make-instance '@f)")
-	flv("required-flavors", `(defflavor @b (q) ()) (defflavor @f (a) () (:required-flavors @b))`,
-		[]string{"(make-load-form '@b)", "(make-load-form '@f)"}, "(make-instance '@f)")
-	flv("default-value-list", `(defflavor @f ((a '(1 2)) (b 'sym)) () :gettable-instance-variables)`, nil,
-		"(c19-instance-dump (make-instance '@f))")
-	flv("default-value-expr", `(defflavor @f ((a (+ 1 2)) (b (list 1 "x"))) () :gettable-instance-variables)`, nil,
-		"(c19-instance-dump (make-instance '@f))")
-	flv("many-vars", `(defflavor @f ((alpha-variable 100000) (beta-variable 200000) (gamma-variable "a string value") (delta-variable 4.5) (epsilon-variable :key) zeta-variable) () :gettable-instance-variables :settable-instance-variables)`, nil,
-		"(c19-instance-dump (make-instance '@f))")
-	flv("inherit", `(defflavor @b ((x 1)) () :gettable-instance-variables) (defflavor @f ((y 2)) (@b) :gettable-instance-variables)`,
-		[]string{"(make-load-form '@b)", "(make-load-form '@f)"},
-		"(c19-instance-dump (make-instance '@f))", "(send (make-instance '@f) :x)", "(make-load-form '@b)")
-	flv("inherit-two", `(defflavor @b ((x 1)) ()) (defflavor @c ((z 3)) ()) (defflavor @f ((y 2)) (@b @c))`,
-		[]string{"(make-load-form '@b)", "(make-load-form '@c)", "(make-load-form '@f)"},
-		"(c19-instance-dump (make-instance '@f))")
-	flv("inherit-override-default", `(defflavor @b ((x 1)) ()) (defflavor @f ((x 5)) (@b))`,
-		[]string{"(make-load-form '@b)", "(make-load-form '@f)"},
-		"(c19-instance-dump (make-instance '@f))", "(c19-instance-dump (make-instance '@b))")
-	flv("included", `(defflavor @b ((x 1)) ()) (defflavor @f ((y 2)) () (:included-flavors @b))`,
-		[]string{"(make-load-form '@b)", "(make-load-form '@f)"},
-		"(c19-instance-dump (make-instance '@f))")
-	flv("method-primary", `(defflavor @f ((a 1)) ()) (defmethod (@f :sum) (n) "Doc of method." (+ a n))`,
-		[]string{"(make-load-form '@f)", "method:@f:primary:sum"}, "(send (make-instance '@f) :sum 4)")
-	flv("method-daemons", `(defvar @v nil) (defflavor @f ((a 1)) ())
-(defmethod (@f :sum) (n) (setq @v (cons 'primary @v)) (+ a n))
-(defmethod (@f :before :sum) (n) (setq @v (cons (list 'before n) @v)))
-(defmethod (@f :after :sum) (n) (let ((x (* n 2))) (setq @v (cons (list 'after x) @v))))`,
-		[]string{"(make-load-form '@f)", "method:@f:primary:sum", "method:@f:before:sum", "method:@f:after:sum"},
-		"(progn (setq @v nil) (list (send (make-instance '@f) :sum 4) @v))")
-	lfIndex["flavor:method-daemons"].support = "(defvar @v nil)"
-	lfIndex["flavor:method-daemons"].setup = strings.Replace(lfIndex["flavor:method-daemons"].setup, "(defvar @v nil) ", "", 1)
-	flv("method-long-body", `(defflavor @f ((a 1)) ()) (defmethod (@f :calc) (n &optional (m 2)) (let ((first-value (+ a n 100000)) (second-value (* m 200000))) (cond ((< n 0) (list 'negative first-value)) (t (list 'positive first-value second-value)))))`,
-		[]string{"(make-load-form '@f)", "method:@f:primary:calc"}, "(send (make-instance '@f) :calc 4)", "(send (make-instance '@f) :calc -4 7)")
+	flv("plain", `(defflavor $f (a b) ())`, nil, "(c19-instance-dump (make-instance '$f))")
+	flv("defaults", `(defflavor $f ((a 1) (b "two") (c 2.5) d) () :gettable-instance-variables)`, nil,
+		"(c19-instance-dump (make-instance '$f))", "(send (make-instance '$f) :b)")
+	flv("all-accessors", `(defflavor $f ((a 1) (b 2)) () :gettable-instance-variables :settable-instance-variables :inittable-instance-variables)`, nil,
+		"(c19-instance-dump (make-instance '$f :a 5))", "(let ((i (make-instance '$f))) (send i :set-b 9) (send i :b))")
+	flv("some-gettable", `(defflavor $f ((a 1) (b 2) (c 3)) () (:gettable-instance-variables a c))`, nil,
+		"(send (make-instance '$f) :a)", "(send (make-instance '$f) :b)", "(send (make-instance '$f) :c)")
+	flv("some-settable", `(defflavor $f ((a 1) (b 2) (c 3)) () (:settable-instance-variables b))`, nil,
+		"(let ((i (make-instance '$f))) (send i :set-b 9) (c19-instance-dump i))", "(send (make-instance '$f) :set-a 4)")
+	flv("some-inittable", `(defflavor $f ((a 1) (b 2) (c 3)) () (:inittable-instance-variables a c))`, nil,
+		"(c19-instance-dump (make-instance '$f :a 7 :c 8))", "(c19-instance-dump (make-instance '$f :b 7))")
+	flv("two-inittable-of-four", `(defflavor $f ((a 1) (b 2) (c 3) (d 4)) () (:inittable-instance-variables b d) :gettable-instance-variables)`, nil,
+		"(c19-instance-dump (make-instance '$f :b 7 :d 8))", "(c19-instance-dump (make-instance '$f :a 7))")
+	flv("default-init-plist", `(defflavor $f ((a 1) b) () :inittable-instance-variables (:default-init-plist (:b 22)))`, nil,
+		"(c19-instance-dump (make-instance '$f))", "(c19-instance-dump (make-instance '$f :b 3))")
+	flv("documentation", `(defflavor $f (a) () (:documentation "Doc of flavor."))`, nil, "(c19-instance-dump (make-instance '$f))")
+	flv("documentation-long", `(defflavor $f (a) () (:documentation `+longDoc+`))`, nil, "(c19-instance-dump (make-instance '$f))")
+	flv("abstract", `(defflavor $f (a) () :abstract-flavor)`, nil, "(make-instance '$f)")
+	flv("no-vanilla", `(defflavor $f (a) () :no-vanilla-flavor)`, nil, "(send (make-instance '$f) :id)")
+	flv("default-value-list", `(defflavor $f ((a '(1 2)) (b 'sym)) () :gettable-instance-variables)`, nil,
+		"(c19-instance-dump (make-instance '$f))")
+	flv("default-value-expr", `(defflavor $f ((a (+ 1 2)) (b (list 1 "x"))) () :gettable-instance-variables)`, nil,
+		"(c19-instance-dump (make-instance '$f))")
+	flv("many-vars", `(defflavor $f ((alpha-variable 100000) (beta-variable 200000) (gamma-variable "a string value") (delta-variable 4.5) (epsilon-variable :key) zeta-variable) () :gettable-instance-variables :settable-instance-variables)`, nil,
+		"(c19-instance-dump (make-instance '$f))")
+	flv("inherit", `(defflavor $b ((x 1)) () :gettable-instance-variables) (defflavor $f ((y 2)) ($b) :gettable-instance-variables)`,
+		[]string{"(make-load-form '$b)", "(make-load-form '$f)"},
+		"(c19-instance-dump (make-instance '$f))", "(send (make-instance '$f) :x)", "(make-load-form '$b)")
+	flv("inherit-two", `(defflavor $b ((x 1)) ()) (defflavor $c ((z 3)) ()) (defflavor $f ((y 2)) ($b $c))`,
+		[]string{"(make-load-form '$b)", "(make-load-form '$c)", "(make-load-form '$f)"},
+		"(c19-instance-dump (make-instance '$f))")
+	flv("inherit-override-default", `(defflavor $b ((x 1)) ()) (defflavor $f ((x 5)) ($b))`,
+		[]string{"(make-load-form '$b)", "(make-load-form '$f)"},
+		"(c19-instance-dump (make-instance '$f))", "(c19-instance-dump (make-instance '$b))")
+	flv("included", `(defflavor $b ((x 1)) ()) (defflavor $f ((y 2)) () (:included-flavors $b))`,
+		[]string{"(make-load-form '$b)", "(make-load-form '$f)"},
+		"(c19-instance-dump (make-instance '$f))")
+	flv("method-primary", `(defflavor $f ((a 1)) ()) (defmethod ($f :sum) (n) "Doc of method." (+ a n))`,
+		[]string{"(make-load-form '$f)", "method:$f:primary:sum"}, "(send (make-instance '$f) :sum 4)")
+	flv("method-daemons", `(defvar $v nil) (defflavor $f ((a 1)) ())
+(defmethod ($f :sum) (n) (setq $v (cons 'primary $v)) (+ a n))
+(defmethod ($f :before :sum) (n) (setq $v (cons (list 'before n) $v)))
+(defmethod ($f :after :sum) (n) (let ((x (* n 2))) (setq $v (cons (list 'after x) $v))))`,
+		[]string{"(make-load-form '$f)", "method:$f:primary:sum", "method:$f:before:sum", "method:$f:after:sum"},
+		"(progn (setq $v nil) (list (send (make-instance '$f) :sum 4) $v))")
+	lfIndex["flavor:method-daemons"].support = "(defvar $v nil)"
+	lfIndex["flavor:method-daemons"].setup = strings.Replace(lfIndex["flavor:method-daemons"].setup, "(defvar $v nil) ", "", 1)
+	flv("method-long-body", `(defflavor $f ((a 1)) ()) (defmethod ($f :calc) (n &optional (m 2)) (let ((first-value (+ a n 100000)) (second-value (* m 200000))) (cond ((< n 0) (list 'negative first-value)) (t (list 'positive first-value second-value)))))`,
+		[]string{"(make-load-form '$f)", "method:$f:primary:calc"}, "(send (make-instance '$f) :calc 4)", "(send (make-instance '$f) :calc -4 7)")
 	// -------------------------------------------------------------- instances
 	for _, e := range elems {
 		addCase(&lfCase{label: "flavor-instance:" + e.feat, kind: "flavor-instance", feat: e.feat,
-			setup: `(defflavor @f (a (b 2)) () :inittable-instance-variables)`, obj: "(make-instance '@f :a " + e.expr + ")"})
+			setup: `(defflavor $f (a (b 2)) () :inittable-instance-variables)`, obj: "(make-instance '$f :a " + e.expr + ")"})
 		addCase(&lfCase{label: "clos-instance:" + e.feat, kind: "clos-instance", feat: e.feat,
-			setup: `(defclass @c () ((a :initarg :a) (b :initform 2)))`, obj: "(make-instance '@c :a " + e.expr + ")"})
+			setup: `(defclass $c () ((a :initarg :a) (b :initform 2)))`, obj: "(make-instance '$c :a " + e.expr + ")"})
 	}
 	addCase(&lfCase{label: "flavor-instance:many", kind: "flavor-instance", feat: "many-vars",
-		setup: `(defflavor @f ((alpha-variable 100000) (beta-variable 200000) (gamma-variable "a string value") (delta-variable 4.5) (epsilon-variable :key)) () :inittable-instance-variables)`,
-		obj:   "(make-instance '@f :beta-variable 7)"})
+		setup: `(defflavor $f ((alpha-variable 100000) (beta-variable 200000) (gamma-variable "a string value") (delta-variable 4.5) (epsilon-variable :key)) () :inittable-instance-variables)`,
+		obj:   "(make-instance '$f :beta-variable 7)"})
 	addCase(&lfCase{label: "clos-instance:unbound", kind: "clos-instance", feat: "unbound-slot",
-		setup: `(defclass @c () ((a :initarg :a) (b :initform 2)))`, obj: "(make-instance '@c)"})
+		setup: `(defclass $c () ((a :initarg :a) (b :initform 2)))`, obj: "(make-instance '$c)"})
 	addCase(&lfCase{label: "clos-instance:inherited", kind: "clos-instance", feat: "inherited-slots",
-		setup: `(defclass @b () ((x :initform 1))) (defclass @c (@b) ((a :initarg :a)))`, obj: "(make-instance '@c :a 3)"})
+		setup: `(defclass $b () ((x :initform 1))) (defclass $c ($b) ((a :initarg :a)))`, obj: "(make-instance '$c :a 3)"})
 	addCase(&lfCase{label: "flavor-instance:nested", kind: "flavor-instance", feat: "instance-valued",
-		setup: `(defflavor @f (a (b 2)) () :inittable-instance-variables)`, obj: "(make-instance '@f :a (make-instance '@f :a 1))"})
+		setup: `(defflavor $f (a (b 2)) () :inittable-instance-variables)`, obj: "(make-instance '$f :a (make-instance '$f :a 1))"})
 	// ---------------------------------------------------------------- classes
 	cls := func(feat, setup string, defs []string, probes ...string) {
 		if defs == nil {
-			defs = []string{"(make-load-form '@c)"}
+			defs = []string{"(make-load-form '$c)"}
 		}
-		probes = append(probes, "(make-load-form '@c)")
+		probes = append(probes, "(make-load-form '$c)")
 		addCase(&lfCase{label: "class:" + feat, kind: "class", feat: feat, setup: setup, defs: defs, probes: probes})
 	}
-	cls("plain", `(defclass @c () (a b))`, nil, "(c19-instance-dump (make-instance '@c))")
-	cls("empty", `(defclass @c () ())`, nil, "(c19-instance-dump (make-instance '@c))")
-	cls("initarg-initform", `(defclass @c () ((a :initarg :a :initform 5) (b :initform "z") (c :initarg :c)))`, nil,
-		"(c19-instance-dump (make-instance '@c))", "(c19-instance-dump (make-instance '@c :a 1 :c 2))")
-	cls("initform-expr", `(defclass @c () ((a :initform (+ 1 2)) (b :initform (list 1 "x")) (c :initform 'sym)))`, nil,
-		"(c19-instance-dump (make-instance '@c))")
-	cls("reader", `(defclass @c () ((a :initarg :a :initform 5 :reader @r)))`, nil, "(@r (make-instance '@c))", "(@r (make-instance '@c :a 6))")
-	cls("writer", `(defclass @c () ((a :initform 5 :writer @w)))`, nil, "(let ((i (make-instance '@c))) (@w i 8) (c19-instance-dump i))")
-	cls("accessor", `(defclass @c () ((a :initform 5 :accessor @a)))`, nil, "(let ((i (make-instance '@c))) (setf (@a i) 8) (list (@a i) (c19-instance-dump i)))")
-	cls("documentation", `(defclass @c () ((a :initform 5 :documentation "Doc of slot.")) (:documentation "Doc of class."))`, nil, "(c19-instance-dump (make-instance '@c))")
-	cls("documentation-long", `(defclass @c () ((a :initform 5)) (:documentation `+longDoc+`))`, nil, "(c19-instance-dump (make-instance '@c))")
-	cls("allocation-class", `(defclass @c () ((a :initform 5 :allocation :class) (b :initform 1)))`, nil,
-		"(let ((i (make-instance '@c)) (j (make-instance '@c))) (setf (slot-value i 'a) 9) (slot-value j 'a))")
-	cls("type", `(defclass @c () ((a :initform 5 :type fixnum :initarg :a)))`, nil, "(c19-instance-dump (make-instance '@c :a 6))")
-	cls("default-initargs", `(defclass @c () ((a :initarg :a) (b :initarg :b)) (:default-initargs :a 10 :b "bee"))`, nil,
-		"(c19-instance-dump (make-instance '@c))", "(c19-instance-dump (make-instance '@c :a 1))")
-	cls("two-initargs", `(defclass @c () ((a :initarg :a :initarg :alpha :initform 0)))`, nil,
-		"(c19-instance-dump (make-instance '@c :alpha 4))", "(c19-instance-dump (make-instance '@c :a 3))")
-	cls("slot-order", `(defclass @c () ((zz :initform 1) (mm :initform 2) (aa :initform 3)))`, nil, "(c19-instance-dump (make-instance '@c))")
-	cls("many-slots", `(defclass @c () ((alpha-slot :initarg :alpha-slot :initform 100000) (beta-slot :initarg :beta-slot :initform "a string value") (gamma-slot :initarg :gamma-slot :initform 4.5) (delta-slot :initform :key) epsilon-slot))`, nil,
-		"(c19-instance-dump (make-instance '@c))", "(c19-instance-dump (make-instance '@c :beta-slot 1))")
-	cls("inherit", `(defclass @b () ((x :initform 1 :initarg :x))) (defclass @c (@b) ((y :initform 2)))`,
-		[]string{"(make-load-form '@b)", "(make-load-form '@c)"},
-		"(c19-instance-dump (make-instance '@c))", "(c19-instance-dump (make-instance '@c :x 5))", "(make-load-form '@b)")
-	cls("inherit-two", `(defclass @b () ((x :initform 1))) (defclass @d () ((x :initform 7) (z :initform 3))) (defclass @c (@b @d) ((y :initform 2)))`,
-		[]string{"(make-load-form '@b)", "(make-load-form '@d)", "(make-load-form '@c)"},
-		"(c19-instance-dump (make-instance '@c))")
+	cls("plain", `(defclass $c () (a b))`, nil, "(c19-instance-dump (make-instance '$c))")
+	cls("empty", `(defclass $c () ())`, nil, "(c19-instance-dump (make-instance '$c))")
+	cls("initarg-initform", `(defclass $c () ((a :initarg :a :initform 5) (b :initform "z") (c :initarg :c)))`, nil,
+		"(c19-instance-dump (make-instance '$c))", "(c19-instance-dump (make-instance '$c :a 1 :c 2))")
+	cls("initform-expr", `(defclass $c () ((a :initform (+ 1 2)) (b :initform (list 1 "x")) (c :initform 'sym)))`, nil,
+		"(c19-instance-dump (make-instance '$c))")
+	cls("reader", `(defclass $c () ((a :initarg :a :initform 5 :reader $r)))`, nil, "($r (make-instance '$c))", "($r (make-instance '$c :a 6))")
+	cls("writer", `(defclass $c () ((a :initform 5 :writer $w)))`, nil, "(let ((i (make-instance '$c))) ($w i 8) (c19-instance-dump i))")
+	cls("accessor", `(defclass $c () ((a :initform 5 :accessor $a)))`, nil, "(let ((i (make-instance '$c))) (setf ($a i) 8) (list ($a i) (c19-instance-dump i)))")
+	cls("documentation", `(defclass $c () ((a :initform 5 :documentation "Doc of slot.")) (:documentation "Doc of class."))`, nil, "(c19-instance-dump (make-instance '$c))")
+	cls("documentation-long", `(defclass $c () ((a :initform 5)) (:documentation `+longDoc+`))`, nil, "(c19-instance-dump (make-instance '$c))")
+	cls("allocation-class", `(defclass $c () ((a :initform 5 :allocation :class) (b :initform 1)))`, nil,
+		"(let ((i (make-instance '$c)) (j (make-instance '$c))) (setf (slot-value i 'a) 9) (slot-value j 'a))")
+	cls("type", `(defclass $c () ((a :initform 5 :type fixnum :initarg :a)))`, nil, "(c19-instance-dump (make-instance '$c :a 6))")
+	cls("default-initargs", `(defclass $c () ((a :initarg :a) (b :initarg :b)) (:default-initargs :a 10 :b "bee"))`, nil,
+		"(c19-instance-dump (make-instance '$c))", "(c19-instance-dump (make-instance '$c :a 1))")
+	cls("two-initargs", `(defclass $c () ((a :initarg :a :initarg :alpha :initform 0)))`, nil,
+		"(c19-instance-dump (make-instance '$c :alpha 4))", "(c19-instance-dump (make-instance '$c :a 3))")
+	cls("slot-order", `(defclass $c () ((zz :initform 1) (mm :initform 2) (aa :initform 3)))`, nil, "(c19-instance-dump (make-instance '$c))")
+	cls("many-slots", `(defclass $c () ((alpha-slot :initarg :alpha-slot :initform 100000) (beta-slot :initarg :beta-slot :initform "a string value") (gamma-slot :initarg :gamma-slot :initform 4.5) (delta-slot :initform :key) epsilon-slot))`, nil,
+		"(c19-instance-dump (make-instance '$c))", "(c19-instance-dump (make-instance '$c :beta-slot 1))")
+	cls("inherit", `(defclass $b () ((x :initform 1 :initarg :x))) (defclass $c ($b) ((y :initform 2)))`,
+		[]string{"(make-load-form '$b)", "(make-load-form '$c)"},
+		"(c19-instance-dump (make-instance '$c))", "(c19-instance-dump (make-instance '$c :x 5))", "(make-load-form '$b)")
+	cls("inherit-two", `(defclass $b () ((x :initform 1))) (defclass $d () ((x :initform 7) (z :initform 3))) (defclass $c ($b $d) ((y :initform 2)))`,
+		[]string{"(make-load-form '$b)", "(make-load-form '$d)", "(make-load-form '$c)"},
+		"(c19-instance-dump (make-instance '$c))")
 	// --------------------------------------------------------------- generics
 	gen := func(feat, support, setup string, probes ...string) {
-		probes = append(probes, "(make-load-form '@g)")
+		probes = append(probes, "(make-load-form '$g)")
 		addCase(&lfCase{label: "generic:" + feat, kind: "generic", feat: feat, support: support, setup: setup,
-			defs: []string{"(make-load-form '@g)"}, probes: probes})
+			defs: []string{"(make-load-form '$g)"}, probes: probes})
 	}
-	gen("no-methods", "", `(defgeneric @g (a b))`, "(@g 1 2)")
-	gen("documentation", "", `(defgeneric @g (a) (:documentation "Doc of generic.")) (defmethod @g ((a fixnum)) (* a 2))`, "(@g 1)", `(@g "s")`)
-	gen("builtin-specializers", "", `(defgeneric @g (a b))
-(defmethod @g ((a fixnum) (b string)) (list 'fixnum-string a b))
-(defmethod @g ((a string) b) (list 'string-any a b))
-(defmethod @g ((a fixnum) (b fixnum)) (+ a b))`,
-		`(@g 1 "a")`, `(@g "s" 2)`, `(@g 1 2)`, `(@g 1.5 2)`)
-	gen("implicit-defgeneric", "", `(defmethod @g ((a fixnum)) (* a 3)) (defmethod @g ((a string)) (list a))`, "(@g 2)", `(@g "s")`, "(@g 'q)")
-	gen("qualifiers", "(defvar @v nil)", `(defgeneric @g (a))
-(defmethod @g ((a fixnum)) (setq @v (cons 'primary @v)) (* a 2))
-(defmethod @g :before ((a fixnum)) (setq @v (cons 'before @v)))
-(defmethod @g :after ((a fixnum)) (setq @v (cons 'after @v)))
-(defmethod @g :around ((a fixnum)) (setq @v (cons 'around @v)) (list 'wrapped (call-next-method)))`,
-		"(progn (setq @v nil) (list (@g 4) @v))")
-	gen("around-only-on-t", "(defvar @v nil)", `(defgeneric @g (a))
-(defmethod @g ((a fixnum)) (* a 2))
-(defmethod @g :around ((a t)) (list 'around (call-next-method)))`, "(@g 4)")
-	gen("call-next-method", "", `(defgeneric @g (a))
-(defmethod @g ((a integer)) (list 'integer a))
-(defmethod @g ((a fixnum)) (cons 'fixnum (call-next-method)))`, "(@g 4)", "(@g 18446744073709551617)")
-	gen("user-class", "(defclass @b () ((x :initform 1))) (defclass @c (@b) ())", `(defgeneric @g (o n))
-(defmethod @g ((o @b) n) (list 'base n (slot-value o 'x)))
-(defmethod @g ((o @c) n) (cons 'derived (call-next-method)))`,
-		"(@g (make-instance '@c) 1)", "(@g (make-instance '@b) 2)", "(@g 3 3)")
-	gen("optional-args", "", `(defgeneric @g (a &optional b))
-(defmethod @g ((a fixnum) &optional (b 7)) (list a b))`, "(@g 1)", "(@g 1 2)")
-	gen("key-args", "", `(defgeneric @g (a &key k))
-(defmethod @g ((a fixnum) &key (k "d")) (list a k))`, "(@g 1)", "(@g 1 :k 2)")
-	gen("rest-args", "", `(defgeneric @g (a &rest r))
-(defmethod @g ((a fixnum) &rest r) (list a r))`, "(@g 1)", "(@g 1 2 3)")
-	gen("method-doc", "", `(defgeneric @g (a))
-(defmethod @g ((a fixnum)) "Doc of method." (* a 2))`, "(@g 1)")
-	gen("long-bodies", "", `(defgeneric @g (first-argument second-argument) (:documentation `+longDoc+`))
-(defmethod @g ((first-argument fixnum) (second-argument string)) (let ((first-value (+ first-argument 100000)) (second-value (concatenate 'string second-argument "-suffix"))) (cond ((< first-argument 0) (list 'negative first-value)) (t (list 'positive first-value second-value)))))
-(defmethod @g ((first-argument string) (second-argument t)) (list "a long string of words that is wider than the narrow margins" first-argument second-argument))`,
-		`(@g 1 "a")`, `(@g -1 "a")`, `(@g "s" 2)`)
-	gen("eql-free-three-args", "", `(defgeneric @g (a b c))
-(defmethod @g ((a fixnum) (b t) (c string)) (list 1 a b c))
-(defmethod @g ((a t) (b fixnum) (c t)) (list 2 a b c))`, `(@g 1 2 "s")`, `(@g "x" 2 3)`, `(@g 1 'q "s")`)
+	gen("no-methods", "", `(defgeneric $g (a b))`, "($g 1 2)")
+	gen("documentation", "", `(defgeneric $g (a) (:documentation "Doc of generic.")) (defmethod $g ((a fixnum)) (* a 2))`, "($g 1)", `($g "s")`)
+	gen("builtin-specializers", "", `(defgeneric $g (a b))
+(defmethod $g ((a fixnum) (b string)) (list 'fixnum-string a b))
+(defmethod $g ((a string) b) (list 'string-any a b))
+(defmethod $g ((a fixnum) (b fixnum)) (+ a b))`,
+		`($g 1 "a")`, `($g "s" 2)`, `($g 1 2)`, `($g 1.5 2)`)
+	gen("implicit-defgeneric", "", `(defmethod $g ((a fixnum)) (* a 3)) (defmethod $g ((a string)) (list a))`, "($g 2)", `($g "s")`, "($g 'q)")
+	gen("qualifiers", "(defvar $v nil)", `(defgeneric $g (a))
+(defmethod $g ((a fixnum)) (setq $v (cons 'primary $v)) (* a 2))
+(defmethod $g :before ((a fixnum)) (setq $v (cons 'before $v)))
+(defmethod $g :after ((a fixnum)) (setq $v (cons 'after $v)))
+(defmethod $g :around ((a fixnum)) (setq $v (cons 'around $v)) (list 'wrapped (call-next-method)))`,
+		"(progn (setq $v nil) (list ($g 4) $v))")
+	gen("around-only-on-t", "(defvar $v nil)", `(defgeneric $g (a))
+(defmethod $g ((a fixnum)) (* a 2))
+(defmethod $g :around ((a t)) (list 'around (call-next-method)))`, "($g 4)")
+	gen("call-next-method", "", `(defgeneric $g (a))
+(defmethod $g ((a integer)) (list 'integer a))
+(defmethod $g ((a fixnum)) (cons 'fixnum (call-next-method)))`, "($g 4)", "($g 18446744073709551617)")
+	gen("user-class", "(defclass $b () ((x :initform 1))) (defclass $c ($b) ())", `(defgeneric $g (o n))
+(defmethod $g ((o $b) n) (list 'base n (slot-value o 'x)))
+(defmethod $g ((o $c) n) (cons 'derived (call-next-method)))`,
+		"($g (make-instance '$c) 1)", "($g (make-instance '$b) 2)", "($g 3 3)")
+	gen("optional-args", "", `(defgeneric $g (a &optional b))
+(defmethod $g ((a fixnum) &optional (b 7)) (list a b))`, "($g 1)", "($g 1 2)")
+	gen("key-args", "", `(defgeneric $g (a &key k))
+(defmethod $g ((a fixnum) &key (k "d")) (list a k))`, "($g 1)", "($g 1 :k 2)")
+	gen("rest-args", "", `(defgeneric $g (a &rest r))
+(defmethod $g ((a fixnum) &rest r) (list a r))`, "($g 1)", "($g 1 2 3)")
+	gen("method-doc", "", `(defgeneric $g (a))
+(defmethod $g ((a fixnum)) "Doc of method." (* a 2))`, "($g 1)")
+	gen("long-bodies", "", `(defgeneric $g (first-argument second-argument) (:documentation `+longDoc+`))
+(defmethod $g ((first-argument fixnum) (second-argument string)) (let ((first-value (+ first-argument 100000)) (second-value (concatenate 'string second-argument "-suffix"))) (cond ((< first-argument 0) (list 'negative first-value)) (t (list 'positive first-value second-value)))))
+(defmethod $g ((first-argument string) (second-argument t)) (list "a long string of words that is wider than the narrow margins" first-argument second-argument))`,
+		`($g 1 "a")`, `($g -1 "a")`, `($g "s" 2)`)
+	gen("eql-free-three-args", "", `(defgeneric $g (a b c))
+(defmethod $g ((a fixnum) (b t) (c string)) (list 1 a b c))
+(defmethod $g ((a t) (b fixnum) (c t)) (list 2 a b c))`, `($g 1 2 "s")`, `($g "x" 2 3)`, `($g 1 'q "s")`)
 }
 
 func enumerateLF(tier string, emit func(string)) {
